@@ -82,6 +82,9 @@ func detectDuplicateLinks(list any) error {
 	set := []*Link{}
 	// loop through and check order of Since value
 	for _, v := range values {
+		if v == nil {
+			continue
+		}
 		if l := LinkByKey(set, v.Key); l != nil {
 			return fmt.Errorf("duplicate key '%v'", v.Key)
 		}
